@@ -122,6 +122,8 @@ pub struct World {
     pub nontrivial: HashSet<String>,
     pub quiesce_rounds: u64,
     pub quiesce_budget: u64,
+    /// KF-2 signature seen during the loss-free suffix (or at a stuck handshake)
+    pub hog_seen: bool,
     pub log: Vec<String>,
     pub keep_log: bool,
 }
@@ -191,6 +193,7 @@ impl World {
             nontrivial: HashSet::new(),
             quiesce_rounds: 0,
             quiesce_budget: 0,
+            hog_seen: false,
             log: Vec::new(),
             keep_log,
         }
